@@ -3,7 +3,9 @@
 # Runs quick checks against a SCRATCH copy of the repository with a patch applied, using a
 # scratch copy of the harness whose "/repo" is redirected — /repo itself is not touched, so
 # this is safe while registered checks or background runs use /repo. For triage only:
-# registered checks always build from /repo.
+# registered checks always build from /repo. VERIF_SRC=<dir> takes the harness sources from a
+# frozen copy (git archive HEAD | tar -x -C <dir>) instead of the live /verif, so that a long
+# recheck is not disturbed by edits made meanwhile.
 set -u
 PATCH="$1"; shift
 ALT=/tmp/verif-alt
@@ -19,7 +21,7 @@ if [ "$PATCH" != "-" ]; then
     git -C "$REPO_ALT" apply "$PATCH" || { echo "patch does not apply"; exit 2; }
 fi
 # the scratch harness: current sources of /verif with the repository path redirected
-rsync -a --delete --exclude target --exclude replays --exclude evidence --exclude .git --exclude seeded /verif/ "$ALT/" 
+rsync -a --delete --exclude target --exclude replays --exclude evidence --exclude .git --exclude seeded "${VERIF_SRC:-/verif}/" "$ALT/"
 sed -i "s#path = \"/repo\"#path = \"$REPO_ALT\"#" "$ALT/sim/Cargo.toml"
 sed -i "s#cd /repo #cd $REPO_ALT #" "$ALT/check"
 sed -i "s#\"/repo/{}\"#\"$REPO_ALT/{}\"#" "$ALT/sim/src/engine_d.rs"
